@@ -51,7 +51,8 @@ def parseReq (secs : List (List String)) : Option Req :=
       let (g, rest) ← parseGate term
       if rest ≠ [] then none
       let data ← parseVec data
-      pure ⟨kind, hdr, g, data⟩
+      -- `kind@layout`: the memory layout the harness used is carried for replays only
+      pure ⟨(kind.splitOn "@").headD kind, hdr, g, data⟩
   | _ => none
 
 def handle (line : String) : String :=
